@@ -5,11 +5,15 @@
    `diff <n> (S<hex id> <state point value>)*n`
         jobs in argument order; answer `<hex id>><wire of the key-sorted diff>|...`
    `flat <state point value>`  -> `<hex dotted key>=<v>|...` in yield order
-   `unflat <state point value>` -> wire of `unflatten (flatten sp)` (entry order as produced) -/
+   `unflat <state point value>` -> wire of `unflatten (flatten sp)` (entry order as produced)
+   `gate <nS> (S<hex id> <value>)*nS <nD> (S<hex id> <value>)*nD`
+        source jobs, then destination jobs (index order each); answer `g1` (SchemaSyncConflict) / `g0`
+   `sdiff <0|1 = ignore_values> <nA> jobsA... <nB> jobsB...`
+        `detect_schema(A).difference(detect_schema(B), ignore_values)`: hex keys, sorted, joined by `|` -/
 import Signac.Json
 import Signac.PyVal
 import Signac.Wire
-import Signac.Schema
+import Signac.SchemaGate
 open Signac Signac.Schema
 
 def insertSorted (s : String) : List String → List String
@@ -72,6 +76,34 @@ def stepSchema (line : String) : String :=
     match parseValue ts with
     | some (.obj kvs, []) => wire (.obj (unflatten (flatten kvs)))
     | _ => "bad-value"
+  | "gate" :: n :: ts =>
+    match n.toNat? with
+    | some n =>
+      match parseJobs n ts with
+      | some (src, m :: ts') =>
+        match m.toNat? with
+        | some m =>
+          match parseJobs m ts' with
+          | some (dst, []) => if syncGate src dst then "g1" else "g0"
+          | _ => "bad-value"
+        | none => "bad-value"
+      | _ => "bad-value"
+    | none => "bad-value"
+  | "sdiff" :: ig :: n :: ts =>
+    match (if ig = "0" then some false else if ig = "1" then some true else none), n.toNat? with
+    | some ign, some n =>
+      match parseJobs n ts with
+      | some (ja, m :: ts') =>
+        match m.toNat? with
+        | some m =>
+          match parseJobs m ts' with
+          | some (jb, []) =>
+            "|".intercalate (sortStrings
+              ((schemaDifference ign (detectSchema false ja) (detectSchema false jb)).map toHex))
+          | _ => "bad-value"
+        | none => "bad-value"
+      | _ => "bad-value"
+    | _, _ => "bad-value"
   | _ => "bad-op"
 
 def main : IO Unit := driverLoop stepSchema
